@@ -50,13 +50,16 @@ type astInfo struct {
 	S        *astStructs
 }
 
-func loadAstInfo(e *Env) (*astInfo, error) {
-	p, err := e.Load("ast", true)
+func loadAstInfo(e *Env) (*astInfo, error) { return loadAstInfoDir(e, "ast") }
+
+// loadAstInfoDir: the same for another package directory with the go/ast shape (GOROOT/src/go/ast).
+func loadAstInfoDir(e *Env, dir string) (*astInfo, error) {
+	p, err := e.Load(dir, true)
 	if err != nil {
 		return nil, err
 	}
 	if p.Types == nil {
-		return nil, fmt.Errorf("ast: type check failed")
+		return nil, fmt.Errorf("%s: type check failed", dir)
 	}
 	ai := &astInfo{pkg: p, nodeT: map[*types.TypeName]bool{}, structOf: map[string]*types.Struct{}, declOf: map[string]*ast.StructType{}}
 	nobj := p.Types.Scope().Lookup("Node")
@@ -352,8 +355,8 @@ func (ai *astInfo) structs() (*astStructs, error) {
 		S.Nodes[name] = fs
 		S.NodeOrder = append(S.NodeOrder, name)
 	}
-	if len(S.NodeOrder) < 60 {
-		return nil, fmt.Errorf("only %d node structs found in /repo/ast", len(S.NodeOrder))
+	if len(S.NodeOrder) < 50 {
+		return nil, fmt.Errorf("only %d node structs found", len(S.NodeOrder))
 	}
 	ai.S = S
 	return S, nil
